@@ -1309,8 +1309,8 @@ def corr_parts(ctx, na, nb, nd=0):
 
 
 def run(ctx):
-    corr_parts(ctx, ctx.scale(900, 25000), ctx.scale(130, 4000), ctx.scale(300, 8000))
-    part_c(ctx, ctx.scale(240, 8000), ctx.scale(360, 12000))
+    corr_parts(ctx, ctx.scale(900, 40000), ctx.scale(130, 6500), ctx.scale(300, 13000))
+    part_c(ctx, ctx.scale(240, 13000), ctx.scale(360, 19000))
 
 
 def search(ctx):
